@@ -1,6 +1,6 @@
 #!/usr/bin/env python3
 """Seeded-mutation bookkeeping.
-  seed.py import <ID>            copy /tmp/seed-<ID>/m* into /verif/seeded/<ID>/
+  seed.py import <ID> [dir]      copy <dir>/m* (default /tmp/seed-<ID>) into /verif/seeded/<ID>/
   seed.py confirm <ID> <m>       re-run the demonstration in a scratch worktree (original: pass, mutant: fail)
   seed.py run <ID> <m> [ids...]  apply the patch to /repo, run ./check for the property (and any further ids), undo, record result
 """
@@ -12,8 +12,8 @@ def sh(cmd, cwd=None, timeout=3600):
     p = subprocess.run(cmd, shell=True, cwd=cwd, env=ENV, stdout=subprocess.PIPE, stderr=subprocess.STDOUT, text=True, timeout=timeout)
     return p.returncode, p.stdout
 
-def imp(pid):
-    src = f'/tmp/seed-{pid}'
+def imp(pid, src=None):
+    src = src or f'/tmp/seed-{pid}'
     for m in sorted(os.listdir(src)):
         if not os.path.isdir(f'{src}/{m}'): continue
         dst = f'{ROOT}/{pid}/{m}'
@@ -103,6 +103,6 @@ def run(pid, m, ids):
 
 if __name__ == '__main__':
     a = sys.argv[1:]
-    if a[0] == 'import': imp(a[1])
+    if a[0] == 'import': imp(a[1], a[2] if len(a) > 2 else None)
     elif a[0] == 'confirm': print(json.dumps(confirm(a[1], a[2]), indent=1)[:1500])
     elif a[0] == 'run': run(a[1], a[2], a[3:] or [a[1]])
